@@ -242,10 +242,42 @@ func extractC12() *lean {
 	} else {
 		maxGuarded = ".unknown_no_Max_dereference"
 	}
+	// ---- Resolve: is a second descriptor-map entry for the same input descriptor id rejected?
+	_, psf0 := parseFile("vcr/pe/presentation_submission.go")
+	dupCheck := ".unknown_Resolve_not_found"
+	if fd := funcDecl(psf0, "Resolve"); fd != nil {
+		dupCheck = ".unknown_Resolve_has_no_loop_over_DescriptorMap"
+		ast.Inspect(fd, func(n ast.Node) bool {
+			rs, ok := n.(*ast.RangeStmt)
+			if !ok || exprString(rs.X) != "s.DescriptorMap" {
+				return true
+			}
+			elem := exprString(rs.Value)
+			dupCheck = "false"
+			for _, st := range rs.Body.List {
+				is, ok := st.(*ast.IfStmt)
+				if !ok || is.Init == nil {
+					continue
+				}
+				as, ok := is.Init.(*ast.AssignStmt)
+				if !ok || len(as.Lhs) != 2 || len(as.Rhs) != 1 || exprString(as.Rhs[0]) != "result["+elem+".Id]" {
+					continue
+				}
+				if exprString(is.Cond) != exprString(as.Lhs[1]) || len(is.Body.List) == 0 {
+					continue
+				}
+				if ret, ok := is.Body.List[len(is.Body.List)-1].(*ast.ReturnStmt); ok && len(ret.Results) == 2 && exprString(ret.Results[0]) == "nil" {
+					dupCheck = "true"
+				}
+			}
+			return false
+		})
+	}
+	l.def("resolveRejectsDuplicateIds", "Bool", dupCheck, dupCheck)
 	l.def("matchFilterArrayGuard", "Bool", arrayGuard, arrayGuard)
 	l.def("matchFilterAssertsString", "Bool", fmt.Sprint(patternAsserts), patternAsserts)
 	l.def("applyMaxGuarded", "Bool", maxGuarded, maxGuarded)
-	l.sb.WriteString("def cfg : Cfg := { arrayGuard := matchFilterArrayGuard, maxNilCheck := applyMaxGuarded }\n")
+	l.sb.WriteString("def cfg : Cfg := { arrayGuard := matchFilterArrayGuard, maxNilCheck := applyMaxGuarded, dupCheck := resolveRejectsDuplicateIds }\n")
 
 	// ---- JSON schema of a submission requirement: rule names and lower bounds of count/min/max (both oneOf branches)
 	b, err := os.ReadFile(filepath.Join(repo, "vcr/pe/schema/v2/submission-requirement.json"))
